@@ -20,6 +20,7 @@ import shutil
 import sqlite3
 import sys
 import tempfile
+import threading
 import time as _real_time
 import types
 
@@ -37,7 +38,10 @@ RULE = ('Hypothesis RuleBasedStateMachine histories (quick: <= 40 steps) over on
         'pre-check), advance the clock (1/8 s ... a week), set the serving rule refresh_before (absolute time as string or datetime, '
         'relative seconds/minutes/hours/days/weeks, mtime of a file), re-touch the mtime file, set the seed-task threshold '
         '(_expire_timestamp computed as SeedTask does), switch the upstream between ok / SourceError / on_error image (with and '
-        'without authorize_stale), bump the upstream content version. Thresholds are placed at, 1/8 s ... 1.5 s beside and far from '
+        'without authorize_stale), bump the upstream content version, and a deterministic two-requester race (requester B - same TileManager or a '
+        'second one on the same cache and lock directories - asks for the same stale tile(s) while A is inside the upstream call holding '
+        'the tile lock; the upstream answers only after B was seen failing to get that lock; outcome must equal the sequential order A, B: '
+        'one upstream request in total when A\'s tile is written after the threshold). Thresholds are placed at, 1/8 s ... 1.5 s beside and far from '
         'the write times of stored tiles. Each request is judged against the model: upstream call log (exactly the stale/missing '
         '(meta) tiles, once), returned content version, and a byte-level scan of all 21 tile slots. A history is non-trivial when some '
         'tile was requested before and after a threshold change and the history contains at least one must-refresh and one '
@@ -49,6 +53,7 @@ ASSUMPTIONS = [
     'concurrent_tile_creators = 1 (schedules belong to C08); sqlite ttl option not used (it reads the real SQL clock)',
     'a fresh tile that shares a meta tile with a stale requested tile may legitimately be re-fetched (meta-tile granularity); its served content is not judged',
     'when a seed-task threshold and a cache-level refresh_before are both set: must-refresh is judged by the seed rule, must-keep only when both rules keep',
+    'race rule: real threads and the real file tile lock (retry step 0.01 s real time); if B neither reaches the lock nor finishes within 15 s the step is inconclusive, never a violation; races are generated with a healthy upstream and one creation unit (one tile / one meta tile) only',
     'an on_error image with cache: False is the failure response; on_error cache: True (configured overwrite) is not generated',
     'returned-where-configured clause: authorize_stale (doc/sources.rst) and the SourceError fallback are judged on the single-tile path only, where MapProxy implements them; on meta/bulk paths only the stored state is judged (ignored authorize_stale is counted in notes)',
 ]
@@ -58,6 +63,8 @@ START = BASE + 500 * 86400.0
 TILE = 16
 LEVELS = (0, 1, 2)
 UNIVERSE = [(x, y, z) for z in LEVELS for x in range(2 ** z) for y in range(2 ** z)]
+RACE_WAIT = 15.0                 # real seconds the harness waits for a requester to reach a rendezvous (then: inconclusive)
+SIG_RACE_SQLITE_SINGLE = 'C13/race/tile-refreshed-by-lock-holder-fetched-again/single/sqlite'
 SIG_SEED_VS_CACHE_RULE = 'C13/seed-threshold-ignored/cache-level-refresh_before-wins'
 
 
@@ -150,9 +157,16 @@ class SynthSource(object):
         eng = self.engine
         try:
             eng.clock.now += eng.cfg['latency']
+            me = threading.current_thread()
             entry = {'bbox': tuple(query.bbox), 'size': tuple(query.size), 'version': eng.version,
-                     'fail': eng.fail, 't': eng.clock.now}
+                     'fail': eng.fail, 't': eng.clock.now, 'thread': me.name}
             eng.log.append(entry)
+            gate = eng.gate
+            if gate is not None and gate['armed'] and me is gate['thread'] and not gate['inside'].is_set():
+                # requester A of a race: the upstream answers only when the harness says so
+                gate['inside'].set()
+                if not gate['release'].wait(4 * RACE_WAIT):
+                    raise core.HarnessError('race gate was never released')
             fail = eng.fail
             if fail is None:
                 img = eng.render(query.bbox, query.size, eng.version)
@@ -205,6 +219,9 @@ class Engine(object):
         self.tmp = None
         self.undo = None
         self.mtime_value = None
+        self.mgrs2 = None          # second set of managers on the same directories (built on demand)
+        self.gate = None           # race control of the synthetic upstream
+        self.race_tag = ''
         if _real_time.timezone != 0 or _real_time.daylight:
             _real_time.tzset()
             if _real_time.timezone != 0 or _real_time.daylight:
@@ -231,7 +248,6 @@ class Engine(object):
         return dict((k, v) for k, v in r['delta'].items())
 
     def _build(self):
-        from mapproxy.config.loader import ProxyConfiguration
         from mapproxy.source.error import HTTPSourceErrorHandler
         cfg = self.cfg
         self.tmp = tempfile.mkdtemp(prefix='c13-', dir=_scratch_root())
@@ -268,29 +284,14 @@ class Engine(object):
             'services': {'tms': {}},
         }
         self.undo = _install_patches(self.clock)
-        pc = ProxyConfiguration(conf, conf_base_dir=tmp)
-        self.mgrs = {}
-        for name in ('cs', 'cm', 'cb'):
-            self.mgrs[name] = pc.caches[name].caches()[0][2]
+        self._conf = conf
+        self._shared_mbtiles = None
+        self.src_meta = SynthSource(self, True)
+        self.src_tile = SynthSource(self, False)
+        self.mgrs = self._load_managers()
         self.grid = self.mgrs['cs'].grid
         # the loader must have handed the configured rule to every manager (loader.py: mgr._refresh_before = ...)
         self.loader_rule_lost = any(bool(m._refresh_before) != bool(initial) for m in self.mgrs.values())
-        if backend == 'mbtiles':
-            from mapproxy.cache.mbtiles import MBTilesCache
-            self.mbfile = os.path.join(tmp, 'tiles', 'all.mbtiles')
-            shared = MBTilesCache(self.mbfile, with_timestamps=True)
-            for m in self.mgrs.values():
-                m.cache = shared
-        src_meta = SynthSource(self, True)
-        src_tile = SynthSource(self, False)
-        self.mgrs['cs'].sources = [src_meta]
-        self.mgrs['cm'].sources = [src_meta]
-        self.mgrs['cb'].sources = [src_tile]
-        if self.mgrs['cs'].meta_grid is not None or self.mgrs['cm'].meta_grid is None or self.mgrs['cb'].meta_grid is None:
-            raise core.HarnessError('unexpected meta grid setup')
-        if self.family == 'file':
-            for m in self.mgrs.values():
-                self._wrap_file_cache(m.cache)
         self.error_handlers = {}
         for key, stale in (('errimg', False), ('errimg-stale', True)):
             h = HTTPSourceErrorHandler()
@@ -299,6 +300,30 @@ class Engine(object):
         # per-level lookup for the renderer
         self.res = [self.grid.resolution(z) for z in LEVELS]
         self._tile_cache = {}
+
+    def _load_managers(self):
+        """TileManagers cs / cm / cb as the configuration loader builds them, with the synthetic upstream plugged in"""
+        import copy
+        from mapproxy.config.loader import ProxyConfiguration
+        pc = ProxyConfiguration(copy.deepcopy(self._conf), conf_base_dir=self.tmp)
+        mgrs = {}
+        for name in ('cs', 'cm', 'cb'):
+            mgrs[name] = pc.caches[name].caches()[0][2]
+        if self.cfg['backend'] == 'mbtiles':
+            from mapproxy.cache.mbtiles import MBTilesCache
+            self.mbfile = os.path.join(self.tmp, 'tiles', 'all.mbtiles')
+            shared = MBTilesCache(self.mbfile, with_timestamps=True)
+            for m in mgrs.values():
+                m.cache = shared
+        mgrs['cs'].sources = [self.src_meta]
+        mgrs['cm'].sources = [self.src_meta]
+        mgrs['cb'].sources = [self.src_tile]
+        if mgrs['cs'].meta_grid is not None or mgrs['cm'].meta_grid is None or mgrs['cb'].meta_grid is None:
+            raise core.HarnessError('unexpected meta grid setup')
+        if self.family == 'file':
+            for m in mgrs.values():
+                self._wrap_file_cache(m.cache)
+        return mgrs
 
     def _wrap_file_cache(self, cache):
         clock = self.clock
@@ -321,7 +346,7 @@ class Engine(object):
 
     def close(self):
         try:
-            for m in getattr(self, 'mgrs', {}).values():
+            for m in list(getattr(self, 'mgrs', {}).values()) + list((getattr(self, 'mgrs2', None) or {}).values()):
                 try:
                     m.cleanup()
                 except Exception:
@@ -481,7 +506,7 @@ class Engine(object):
         elif kind == 'serve_rule':
             self.serve_rule = op['rule']
             conf = self._rule_conf(op['rule'])
-            for m in self.mgrs.values():
+            for m in self.all_managers():
                 m._refresh_before = dict(conf)
             self.epoch += 1
             self.classes.add('rule:' + (op['rule']['kind'] if op['rule'] else 'cleared'))
@@ -491,7 +516,7 @@ class Engine(object):
             from mapproxy.seed.config import before_timestamp_from_options
             if op['rule'] is None:
                 self.seed_rule = None
-                for m in self.mgrs.values():
+                for m in self.all_managers():
                     m._expire_timestamp = None
             else:
                 # what SeedTask configuration does: the threshold is computed once, when the task is created
@@ -504,7 +529,7 @@ class Engine(object):
                     v.case = core.jsonable({'cfg': self.cfg, 'ops': self.ops})
                     return v
                 self.seed_rule = {'rule': op['rule'], 'T': self.rule_T(op['rule'], self.clock.now)}
-                for m in self.mgrs.values():
+                for m in self.all_managers():
                     m._expire_timestamp = T_code
                 self.classes.add('rule:seed-' + op['rule']['kind'])
                 if self.serve_rule is not None:
@@ -512,6 +537,8 @@ class Engine(object):
             self.epoch += 1
         elif kind == 'request':
             v = self.request(op)
+        elif kind == 'race':
+            v = self.race(op)
         else:
             raise core.HarnessError('unknown op %r' % (op,))
         if self.harness_exc:
@@ -624,22 +651,10 @@ class Engine(object):
     # -- the request step ---------------------------------------------------------------------------
 
     def sig(self, clause, path):
-        return 'C13/%s/%s/%s/%s' % (clause, self.rule_kind(), path, self.family)
+        return 'C13/%s/%s/%s%s/%s' % (clause, self.rule_kind(), self.race_tag, path, self.family)
 
-    def request(self, op):
-        from mapproxy.source import SourceError
-        name = op['mgr']
-        mgr = self.mgrs[name]
-        coords = [tuple(c) for c in op['coords']]
-        pre = op.get('precheck')
-        now0 = self.clock.now
-        fail = self.fail
-        states = dict((c, self.state_of(c, now0)) for c in coords)
+    def _bookkeeping(self, name, mgr, coords, states, now0):
         kindname = self.rule_kind()
-        if self.loader_rule_lost:
-            return core.Violation('C13/loader/refresh_before-not-handed-to-tile-manager',
-                                  'cache configured with refresh_before %r but TileManager._refresh_before is %r'
-                                  % (self.cfg.get('initial_rule'), [m._refresh_before for m in self.mgrs.values()]), None)
         for c in coords:
             self.req_epochs[c].add(self.epoch)
             s = states[c]
@@ -660,34 +675,46 @@ class Engine(object):
                     if states[c] == 'must':
                         self.classes.add('meta:stale-requested-with-fresh-sibling')
 
-        self.log = []
-        go = True
-        exc = None
-        result = None
+    def _run(self, mgr, coords, pre, with_metadata):
+        """one requester: -> {'go', 'result', 'exc', 'error'} ('error' = unexpected exception object)"""
+        from mapproxy.source import SourceError
+        out = {'go': True, 'result': None, 'exc': None, 'error': None}
         try:
             if pre == 'is_cached':
-                go = not mgr.is_cached(coords[0])
+                out['go'] = not mgr.is_cached(coords[0])
             elif pre == 'is_stale':
-                go = bool(mgr.is_stale(coords[0]))
-            if go:
+                out['go'] = bool(mgr.is_stale(coords[0]))
+            if out['go']:
                 with mgr.session():
-                    result = mgr.load_tile_coords(coords, with_metadata=bool(op.get('with_metadata')))
+                    out['result'] = mgr.load_tile_coords(coords, with_metadata=with_metadata)
             else:
                 mgr.cleanup()
         except SourceError as e:
-            exc = e
-        except core.HarnessError:
-            raise
+            out['exc'] = e
+        except core.HarnessError as e:
+            out['harness'] = e
         except Exception as e:
-            if self.harness_exc:
-                raise core.HarnessError('synthetic upstream failed: %r' % (self.harness_exc[1],))
-            return core.Violation('C13/request-raised/%s/%s' % (type(e).__name__, self.family),
-                                  'request %r raised %r (upstream mode %r)' % (op, e, fail), None)
-        actual = collections.Counter(e['bbox'] for e in self.log)
-        desc = 'rule %s, now %.3f, tiles %s' % (
+            out['error'] = e
+        return out
+
+    def _describe(self, coords, states, now0):
+        return 'rule %s, now %.3f, tiles %s' % (
             self.describe_rules(now0), now0,
             ', '.join('%r:%s%s' % (c, states[c], ('@%.3f' % self.model[c]['ts']) if c in self.model else '') for c in coords))
 
+    def _evaluate(self, name, coords, states, pre, out, fail, now0, entries, desc):
+        """Judge one finished requester against the model.  -> (Violation | None, written | None, path);
+        written = {coord: (ts, version)} still to be confirmed by scan(); None = nothing to scan for (dead / violation)."""
+        go, result, exc = out['go'], out['result'], out['exc']
+        if out.get('harness') is not None:
+            raise out['harness']
+        if out['error'] is not None:
+            if self.harness_exc:
+                raise core.HarnessError('synthetic upstream failed: %r' % (self.harness_exc[1],))
+            e = out['error']
+            return core.Violation('C13/request-raised/%s%s/%s' % (self.race_tag, type(e).__name__, self.family),
+                                  'request for %r on %s raised %r (upstream mode %r); %s' % (coords, name, e, fail, desc), None), None, None
+        actual = collections.Counter(e['bbox'] for e in entries)
         if pre:
             self.classes.add('precheck:' + pre)
         kind, match = self.judge(name, coords, states, pre, go, fail, now0, actual, exc, desc)
@@ -699,17 +726,18 @@ class Engine(object):
                 match.message = ('the seed task\'s refresh threshold is ignored because the cache has a refresh_before option '
                                  '(TileManager.expire_timestamp prefers _refresh_before): ' + match.message)
         if kind == 'violation':
-            return match
+            return match, None, None
         if kind == 'inconclusive':
             self.notes['inconclusive:more-than-6-band-tiles'] += 1
             self.dead = True
-            return None
+            return None, None, None
         if kind == 'skipped':
-            return self.scan({}, fail, 'precheck-' + pre, desc)
+            return None, {}, 'precheck-' + pre
         path = match['path']
         self.classes.add('path:' + path)
         if fail:
             self.classes.add('failure-exercised:%s/%s' % (fail, path))
+        fetched = self.log_coords(entries)
 
         # served content
         if exc is None and go:
@@ -730,15 +758,15 @@ class Engine(object):
                     if not self.same_pixels(arr, self.version, c):
                         return core.Violation(self.sig('refreshed-tile-served-with-old-content', path),
                                               'tile %r was fetched again but the response does not show upstream version %d; %s'
-                                              % (c, self.version, desc), None)
+                                              % (c, self.version, desc), None), None, None
                 elif want == 'old':
                     if not self.same_pixels(arr, self.model[c]['version'], c):
-                        clause = 'stale-tile-not-served-after-failed-refresh' if (fail and c in self.log_coords(name)) \
+                        clause = 'stale-tile-not-served-after-failed-refresh' if (fail and c in fetched) \
                             else 'cached-tile-served-with-other-content'
                         return core.Violation(self.sig(clause, path) + ('/' + fail if fail else ''),
                                               'tile %r must be served from the cache (version %d) but the response differs; %s'
-                                              % (c, self.model[c]['version'], desc), None)
-                    if fail and states[c] in ('must', 'band') and c in self.log_coords(name):
+                                              % (c, self.model[c]['version'], desc), None), None, None
+                    if fail and states[c] in ('must', 'band') and c in fetched:
                         self.classes.add('failure:stale-tile-served/%s' % fail)
                 elif want == 'err':
                     if states[c] in ('keep', 'none'):
@@ -748,7 +776,178 @@ class Engine(object):
         written = {}
         for c, ts, ver in match['stored']:
             written[c] = (ts, ver)
+        return None, written, path
+
+    def request(self, op):
+        name = op['mgr']
+        mgr = self.mgrs[name]
+        coords = [tuple(c) for c in op['coords']]
+        pre = op.get('precheck')
+        now0 = self.clock.now
+        fail = self.fail
+        states = dict((c, self.state_of(c, now0)) for c in coords)
+        if self.loader_rule_lost:
+            return core.Violation('C13/loader/refresh_before-not-handed-to-tile-manager',
+                                  'cache configured with refresh_before %r but TileManager._refresh_before is %r'
+                                  % (self.cfg.get('initial_rule'), [m._refresh_before for m in self.mgrs.values()]), None)
+        self._bookkeeping(name, mgr, coords, states, now0)
+        self.log = []
+        out = self._run(mgr, coords, pre, bool(op.get('with_metadata')))
+        desc = self._describe(coords, states, now0)
+        v, written, path = self._evaluate(name, coords, states, pre, out, fail, now0, list(self.log), desc)
+        if v is not None or written is None:
+            return v
         return self.scan(written, fail, path, desc)
+
+    # -- two concurrent requesters for the same tile(s) -------------------------------------------------
+
+    def second_managers(self):
+        """A second set of TileManagers on the same cache and lock directories (stands for a second process)."""
+        if self.mgrs2 is None:
+            self.mgrs2 = self._load_managers()
+            for n, m in self.mgrs2.items():
+                m._refresh_before = dict(self.mgrs[n]._refresh_before)
+                m._expire_timestamp = self.mgrs[n]._expire_timestamp
+        return self.mgrs2
+
+    def all_managers(self):
+        return list(self.mgrs.values()) + (list(self.mgrs2.values()) if self.mgrs2 else [])
+
+    def race(self, op):
+        """Requester A asks for the tile(s); while A is inside the upstream call (holding the tile lock) requester B
+        asks for the same tile(s) and is observed waiting for that lock; only then the upstream answers A.
+        Demanded: the outcome of the sequential order A, B - in particular B, which gets the lock after A has stored
+        the refreshed tile, serves a tile written after the threshold from the cache without an upstream request."""
+        import threading
+        import mapproxy.util.lock as mlock
+        from mapproxy.util.ext.lockfile import LockError
+        name = op['mgr']
+        coords = [tuple(c) for c in op['coords']]
+        mgr_a = self.mgrs[name]
+        mgr_b = self.second_managers()[name] if op.get('second') else mgr_a
+        fail = self.fail
+        now0 = self.clock.now
+        states_a = dict((c, self.state_of(c, now0)) for c in coords)
+        if self.loader_rule_lost:
+            return None
+        self._bookkeeping(name, mgr_a, coords, states_a, now0)
+        desc_a = 'requester A of a race: ' + self._describe(coords, states_a, now0)
+        self.log = []
+        gate = {'armed': True, 'inside': threading.Event(), 'release': threading.Event(), 'thread': None}
+        self.gate = gate
+        b_waiting = threading.Event()
+        outs = {}
+        done = {'A': threading.Event(), 'B': threading.Event()}
+
+        def runner(key, mgr):
+            try:
+                outs[key] = self._run(mgr, coords, None, bool(op.get('with_metadata')))
+            except BaseException as e:      # never lose an exception in a thread
+                outs[key] = {'go': True, 'result': None, 'exc': None, 'error': None, 'harness': core.HarnessError(repr(e))}
+            finally:
+                done[key].set()
+
+        ta = threading.Thread(target=runner, args=('A', mgr_a), name='c13-A')
+        tb = threading.Thread(target=runner, args=('B', mgr_b), name='c13-B')
+        gate['thread'] = ta
+        orig_try = mlock.FileLock._try_lock
+
+        def try_lock(lock_self):
+            try:
+                return orig_try(lock_self)
+            except LockError:
+                if threading.current_thread() is tb:
+                    b_waiting.set()
+                raise
+
+        conclusive = True
+        mlock.FileLock._try_lock = try_lock
+        try:
+            ta.start()
+            self._wait_any([gate['inside'], done['A']], RACE_WAIT)
+            a_inside = gate['inside'].is_set() and not done['A'].is_set()
+            tb.start()
+            if a_inside:
+                # B must reach the lock (or finish without needing it) before the upstream answers A
+                self._wait_any([b_waiting, done['B']], RACE_WAIT)
+                if not (b_waiting.is_set() or done['B'].is_set()):
+                    conclusive = False
+        finally:
+            gate['armed'] = False
+            gate['release'].set()
+            for t in (ta, tb):
+                if t.ident is not None:
+                    t.join(60)
+            mlock.FileLock._try_lock = orig_try
+            self.gate = None
+        if ta.is_alive() or tb.is_alive():
+            raise core.HarnessError('C13 race: requester thread did not finish')
+        if self.harness_exc:
+            raise core.HarnessError('synthetic upstream failed: %r' % (self.harness_exc[1],))
+        if not done['A'].is_set() or not (gate['inside'].is_set() or done['A'].is_set()):
+            conclusive = False
+        if not conclusive:
+            self.notes['inconclusive:race-not-established'] += 1
+            self.dead = True
+            return None
+        self.classes.add('race:' + self.path_of(name, 2 if len(coords) > 1 else 1))
+        if op.get('second'):
+            self.classes.add('race:second-manager')
+        if a_inside and b_waiting.is_set():
+            self.classes.add('race:B-waited-for-the-tile-lock')
+            if any(s == 'must' for s in states_a.values()):
+                self.classes.add('race:B-waited-while-A-refreshed-a-stale-tile')
+        entries_a = [e for e in self.log if e['thread'] == 'c13-A']
+        entries_b = [e for e in self.log if e['thread'] == 'c13-B']
+        # A, judged like a sequential request at its start time
+        v, written_a, path_a = self._evaluate(name, coords, states_a, None, outs['A'], fail, now0, entries_a, desc_a)
+        if v is not None or written_a is None:
+            return v
+        # B, judged like a sequential request issued after A finished: the model first takes over what A wrote
+        saved = dict((c, self.model.get(c)) for c in written_a)
+        for c, (ts, ver) in written_a.items():
+            self.model[c] = {'bytes': None, 'ts': ts, 'version': ver}
+        now_b = max([now0] + [e['t'] for e in entries_a])
+        states_b = dict((c, self.state_of(c, now_b)) for c in coords)
+        desc_b = ('requester B of a race (waited for the tile lock: %s; A made %d upstream call(s) and wrote %s): %s'
+                  % (b_waiting.is_set(), len(entries_a), sorted(written_a), self._describe(coords, states_b, now_b)))
+        self.race_tag = 'race-B:'
+        try:
+            v, written_b, path_b = self._evaluate(name, coords, states_b, None, outs['B'], fail, now_b, entries_b, desc_b)
+        finally:
+            self.race_tag = ''
+        if v is not None and '/fresh-refetched/' in v.signature and b_waiting.is_set() and written_a:
+            # root cause key without the rule kind: the re-check under the tile lock did not notice A's refresh
+            v.signature = 'C13/race/tile-refreshed-by-lock-holder-fetched-again/%s/%s' % (
+                path_a, 'sqlite' if self.family in ('sqlite', 'mbtiles') else self.family)
+            v.message = ('B waited for the tile lock while A refreshed the tile, then asked the upstream again although the tile '
+                         'was written after the threshold: ' + v.message)
+        if v is not None or written_b is None:
+            for c, old in saved.items():     # keep the model consistent with what scan() expects
+                if old is None:
+                    self.model.pop(c, None)
+                else:
+                    self.model[c] = old
+            return v
+        if a_inside and b_waiting.is_set() and not entries_b and written_a:
+            self.classes.add('race:B-served-from-cache-after-A-refreshed')
+        for c, old in saved.items():
+            if old is None:
+                self.model.pop(c, None)
+            else:
+                self.model[c] = old
+        written = dict(written_a)
+        written.update(written_b)
+        return self.scan(written, fail, 'race-' + path_b, desc_b)
+
+    @staticmethod
+    def _wait_any(events, timeout):
+        end = _real_time.time() + timeout
+        while _real_time.time() < end:
+            if any(e.is_set() for e in events):
+                return True
+            _real_time.sleep(0.002)
+        return any(e.is_set() for e in events)
 
     def judge(self, name, coords, states, pre, go, fail, now0, actual, exc, desc):
         """-> ('ok', prediction) | ('skipped', None) | ('inconclusive', None) | ('violation', Violation)"""
@@ -813,10 +1012,10 @@ class Engine(object):
             clause = 'inconsistent-upstream-requests'
         return 'violation', core.Violation(self.sig(clause, path), how + '; ' + desc, None)
 
-    def log_coords(self, name):
-        """coords whose own (single-tile) bbox was requested in this step"""
+    def log_coords(self, entries):
+        """coords whose own (single-tile) bbox was requested"""
         g = self.grid
-        boxes = set(e['bbox'] for e in self.log)
+        boxes = set(e['bbox'] for e in entries)
         return set(c for c in UNIVERSE if g.tile_bbox(c) in boxes)
 
     def _fmt_calls(self, counter, name='cs'):
@@ -1063,6 +1262,29 @@ class ExpiryMachine(RuleBasedStateMachine):
             x, y, z = keys[i % len(keys)]
         self._request(mgr, x, y, z, 1, 1, False, pre)
 
+    @precondition(lambda self: self.eng is not None and not self.eng.dead and self.eng.fail is None)
+    @rule(mgr=st.sampled_from(['cs', 'cs', 'cm', 'cm', 'cb']), i=st.integers(0, 40),
+          pick=st.sampled_from(['stale', 'stale', 'stale', 'stored', 'any']), x=st.integers(0, 3), y=st.integers(0, 3),
+          z=st.sampled_from([0, 1, 1, 2]), pair=st.booleans(), second=st.booleans(), meta=st.booleans())
+    def race(self, mgr, i, pick, x, y, z, pair, second, meta):
+        """two concurrent requesters for the same tile(s), preferably a stale one"""
+        eng = self.eng
+        keys = sorted(eng.model)
+        stale = [c for c in keys if eng.state_of(c, eng.clock.now) == 'must']
+        if pick == 'stale' and stale:
+            c = stale[i % len(stale)]
+        elif pick != 'any' and keys:
+            c = keys[i % len(keys)]
+        else:
+            c = (x % 2 ** z, y % 2 ** z, z)
+        coords = [list(c)]
+        if mgr == 'cs' and eng.family in ('sqlite', 'mbtiles') and SIG_RACE_SQLITE_SINGLE in self._open:
+            self._stats.excluded['race on the single-tile path of a sqlite/mbtiles cache (open finding)'] += 1
+            mgr = 'cm'
+        if pair and mgr != 'cs' and c[2] >= 1:
+            coords.append([c[0] ^ 1, c[1], c[2]])      # same 2x2 meta tile
+        self._do({'op': 'race', 'mgr': mgr, 'second': second, 'coords': coords, 'with_metadata': meta})
+
     def teardown(self):
         eng = self.eng
         if eng is None:
@@ -1170,7 +1392,7 @@ def replay(case, stats):
         v = None
         for op in case['ops']:
             op = dict(op)
-            if op.get('op') == 'request':
+            if op.get('op') in ('request', 'race'):
                 op['coords'] = [list(c) for c in op['coords']]
             v = eng.apply(op)
             if v is not None:
